@@ -407,6 +407,35 @@ pub fn run(report: &Report, thorough: bool) -> Evidence {
             },
             |_| (),
         );
+        // every key of the layout in both planes, alone and after a consonant, ANSI on, read out
+        {
+            let mut keyp = 0u64;
+            for fsugg in [false, true] {
+                let mut o = Opts::fixed(&probhat(), &real_db(), &scratch_xdg("c16fk"));
+                o.ansi = true;
+                o.fsugg = fsugg;
+                let mut ctx = Ctx::new(&o).expect("ctx");
+                for k in crate::keys::KEYS {
+                    for m in [0u8, 2] {
+                        for pre in ["", "\u{0995}"] {
+                            restore(&ctx, &FxState { buf: pre.to_string(), typed: String::new(), pending: 0 });
+                            let ev = Ev::Key { code: k.code, m, sel: 0 };
+                            keyp += 1;
+                            match ctx.apply(&ev) {
+                                Ok(Out::Sugg(r)) => chk.readout(&ctx.opts, &[ev.clone()], &r),
+                                Ok(_) => {}
+                                Err(f) => {
+                                    let mut v = fail_violation("C16", &f, &ctx.opts, &[ev.clone()]);
+                                    v = v.feat("pre", crate::bn::esc(pre));
+                                    report.add(v);
+                                }
+                            }
+                        }
+                    }
+                }
+            }
+            parts.insert("fixed_every_layout_key_both_planes".into(), json!({"key_presses": keyp}));
+        }
         parts.insert("fixed_dictionary_words".into(), json!({"sub_space": space, "words": words.len(), "lists_judged": typed.load(Ordering::Relaxed), "every_prefix": thorough}));
     }
 
